@@ -87,6 +87,28 @@ theorem seid0_exact (n : LNode) (nodes : List RNode) (rSeid : Seid) (addr : Stri
       simp [matchRemote] at hp
       exact ⟨hp.1, hp.2⟩
 
+/-- …and the search does not give up early: if ANY live session has that control-plane SEID and that address, one is
+    found — however many sessions of other nodes carry the same control-plane SEID, wherever they sit in the table -/
+theorem seid0_complete (n : LNode) (nodes : List RNode) (rSeid : Seid) (addr : String) (s : Sess)
+    (hs : some s ∈ n.sess) (h1 : s.remoteID = rSeid) (h2 : (nodes.getD s.rnode default).addr = addr) :
+    ∃ s', n.remoteSess nodes rSeid addr = some s' ∧ s'.remoteID = rSeid ∧ (nodes.getD s'.rnode default).addr = addr := by
+  have hm : matchRemote nodes rSeid addr (some s) = true := by
+    show (s.remoteID == rSeid && ((nodes.getD s.rnode default).addr == addr)) = true
+    rw [h1, h2]; simp
+  unfold LNode.remoteSess
+  cases hf : n.sess.find? (matchRemote nodes rSeid addr) with
+  | none =>
+    have := List.find?_eq_none.mp hf (some s) hs
+    simp [hm] at this
+  | some o =>
+    have hp := List.find?_some hf
+    cases o with
+    | none => simp [matchRemote] at hp
+    | some s' =>
+      refine ⟨s', rfl, ?_⟩
+      simp [matchRemote] at hp
+      exact ⟨hp.1, hp.2⟩
+
 /-- removing one session (`DeleteSess`) keeps the table well-formed and leaves every other SEID as it was -/
 theorem deleteSess_frame (st : State) (wf : C04.TableWF st.lnode) (h : Nat) (x : Seid) (env : Env) (c : Ctx) :
     C04.TableWF (st.deleteSess h x env c).1.lnode ∧
